@@ -909,6 +909,8 @@ def history_case(ctx, root, case):
         b4 = make_solver(Nt, br)
         b4.updateParticleList([particle(x) for x in names])
         b4.setCollisionArray(A)
+        held = b4.collisionArray
+        held_snap = np.array(held[:], copy=True)
         bad_spec, _ = gen_dir_spec(rng, names, Ns, bf, rng.choice(
             ["missing", "ds_missing", "ds_smaller", "ds_broadcast"]), seed0 + 900)
         d4 = write_dir(root, bad_spec)
@@ -918,9 +920,10 @@ def history_case(ctx, root, case):
         except Exception as e:      # noqa: BLE001
             err4 = e
         shutil.rmtree(d4, ignore_errors=True)
-        if err4 is None or classify(err4) != "CollisionLoadError" or b4.collisionArray is not A:
+        kept = b4.collisionArray is held and np.array_equal(held_snap, np.asarray(held[:]))
+        if err4 is None or classify(err4) != "CollisionLoadError" or not kept:
             report(ctx, "setCollisionArray(A) then a faulty load: raised %s, array kept: %s" % (
-                "nothing" if err4 is None else exc_name(err4), b4.collisionArray is A),
+                "nothing" if err4 is None else exc_name(err4), kept),
                 dict(kind="history", case=case, step="setCollisionArray"),
                 key="atomicity" if err4 is not None and classify(err4) == "CollisionLoadError"
                 else "error-kind:after-setCollisionArray")
